@@ -20,7 +20,7 @@ def lexflow(ctx, cases, tag):
     write_ndjson(p0, cases)
     ctx.run_vh("lex", p0, p1)
     ran = read_ndjson(p1)
-    verdicts, _ = ctx.tlc("LexRun", workdir=ctx.sub("tlc-" + tag), files=[(p1, "cases.ndjson")], timeout=3000)
+    verdicts, _ = ctx.tlc("LexRun", workdir=ctx.sub("tlc-" + tag), files=[(p1, "cases.ndjson")], timeout=3000, cover=[("Lexer", "Step")])
     by = {v["id"]: v for v in verdicts}
     bad = []
     for c in ran:
